@@ -238,7 +238,9 @@ def plan(case):
         s1 = bytes.fromhex(a["s1"])
         s2 = bytes.fromhex(a.get("s2", ""))
         assert 0 not in s1 and 0 not in s2
-        undefined = any(b in CP1252_UNDEFINED for b in s1 + s2)
+        # strings the stub reads (and decodes): the copy functions never read their destination
+        read = s2 if fn in ("lstrcpyA", "lstrcpy", "_mbscpy", "lstrcpyn", "xxx_strcpy") else s1 + s2
+        undefined = any(b in CP1252_UNDEFINED for b in read)
         c1range = any(0x80 <= b <= 0x9f for b in s1 + s2)
         high = any(b >= 0x80 for b in s1 + s2)
         if undefined and FUNCS[fn][0] == "win":
@@ -572,7 +574,7 @@ class C47(Check):
     def run_shard(self, tier, seed, shard, nshards):
         from vlib import hyp
         res = ShardResult()
-        n = 12000 if tier == "thorough" else 2000
+        n = 8000 if tier == "thorough" else 2000
         cnt = [0]
 
         def one(case):
